@@ -3,6 +3,7 @@ package props
 import (
 	"bytes"
 	"encoding/json"
+	"errors"
 	"fmt"
 	"sort"
 	"strings"
@@ -29,7 +30,7 @@ func init() {
 			c := decode[playCase](raw)
 			c07Eval(e, m, &c, true)
 		},
-		"args-ops": func(e *Env, raw json.RawMessage) { c07ReplayArgs(e, raw) },
+		"args-ops":      func(e *Env, raw json.RawMessage) { c07ReplayArgs(e, raw) },
 		"yaml-spelling": func(e *Env, raw json.RawMessage) { c07YAMLEval(e, decode[c07YAMLCase](raw)) },
 	}})
 }
@@ -71,6 +72,9 @@ func controlView(f *smf.File) (o *refplay.Observed, offTrack0 string) {
 
 func controlExpect(m *refplay.Model, insts []refplay.Inst, fl refplay.Flags) []refplay.Exp {
 	exp, _, amb, err := m.Expect(insts, fl, nil)
+	if errors.Is(err, refplay.ErrUnstatable) {
+		return nil
+	}
 	if err != nil {
 		panic("C07 harness: " + err.Error())
 	}
@@ -111,6 +115,28 @@ func c07Eval(e *Env, m *refplay.Model, c *playCase, report bool) bool {
 			e.R.Fail(ev.Fail{Class: class, Msg: s, Kind: "play", Case: c})
 		}
 		return false
+	}
+	if _, _, _, xerr := m.Expect(c.Insts, c.Cfg.Flags, nil); errors.Is(xerr, refplay.ErrUnstatable) {
+		// a setting no MIDI file can state: the only right answer is a refusal
+		switch {
+		case res.Crashed || res.Hang:
+			return fail("C07/crash/"+c.Path, fmt.Sprintf("%v (flags %v; document %s): %s", xerr, c.Cfg.Flags.Args(), c07Doc(c), res.Err))
+		case res.Err == "":
+			what := "a file without the event"
+			if f, err := smf.Parse(res.Bytes); err == nil {
+				obs, _ := controlView(f)
+				what = obs.Describe()
+			}
+			return fail("C07/unstatable-setting-written/"+c.Path, fmt.Sprintf("%v, yet write succeeds and the file states something else (flags %v; document %s; observed %s)", xerr, c.Cfg.Flags.Args(), c07Doc(c), what))
+		}
+		e.R.Outcome("refused: unstatable")
+		return true
+	}
+	if res.Err != "" && !res.Crashed && !res.Hang && c07SubMicro(c) {
+		// 60,000,000/bpm is below one microsecond, the resolution of the event: writing 1 and
+		// refusing are both right
+		e.R.Outcome("refused: sub-microsecond tempo")
+		return true
 	}
 	if res.Err != "" {
 		cl := "C07/refused/" + c.Path
@@ -153,6 +179,19 @@ func c07Eval(e *Env, m *refplay.Model, c *playCase, report bool) bool {
 	}
 	e.R.State("in-force:" + strings.Join(st[:], ","))
 	return true
+}
+
+// c07SubMicro: some tempo of the case is faster than one microsecond per quarter note.
+func c07SubMicro(c *playCase) bool {
+	if b := c.Cfg.Flags.BPM; b != nil && *b > 60000000 {
+		return true
+	}
+	for _, in := range c.Insts {
+		if in.BPM != nil && *in.BPM > 60000000 {
+			return true
+		}
+	}
+	return false
 }
 
 func c07Doc(c *playCase) string {
@@ -311,7 +350,7 @@ func c07YAMLFeatures(e *Env) {
 func runC07(e *Env) {
 	e.R.Rule = "settings histories: per instance kind {chord, rest} (free) and presence of bpm, meter, key, velocity, txt, lic, mrk (one deviation each), all histories within the stated length/deviation bounds; value sweeps of every setting over its domain; 16 flag subsets x 256 two-instance documents through the real binary; explicit-state search of the real midiArgs cells. distinct = distinct document+flags; non-trivial = at least one setting or flag present"
 	e.R.Assume("reference: ref/play (tempo within <1 us of 60e6/bpm, numerator and log2 denominator, signature from line of fifths, exact UTF-8 text bytes); velocities learned from six single-dynamic documents and required to be strictly increasing pp<p<mp<mf<f<ff in 1..127; same-tick order not prescribed (per-tick multisets)")
-	e.R.Exclude("bpm < 4 (does not fit SMF's 24-bit tempo), meters whose denominator is not a power of two or whose numerator exceeds 255, empty texts")
+	e.R.Exclude("empty texts")
 	m, err := newModel(e)
 	if err != nil {
 		panic(err)
@@ -379,13 +418,32 @@ func runC07(e *Env) {
 			sweeps = append(sweeps, c)
 		}
 	}
-	for _, b := range []uint64{4, 7, 60, 100, 101, 119, 300, 999, 60000000} {
+	bpms := []uint64{1, 2, 3, 4, 5, 7, 60, 100, 101, 119, 255, 256, 257, 300, 999, 1000, 4096, 65535, 65536, 1000000, 16777215, 16777216, 59999999, 60000000, 60000001, 119999999, 120000000, 120000001, 1 << 31, 1<<32 - 1, 1 << 32, 1<<63 - 1, 1 << 63, 1<<64 - 1}
+	for _, b := range bpms {
 		b := b
 		addSweep(func(in *refplay.Inst) { in.BPM = &b })
 	}
-	for _, mt := range []timing.Frac{{Num: 1, Den: 1}, {Num: 2, Den: 2}, {Num: 3, Den: 4}, {Num: 4, Den: 4}, {Num: 5, Den: 4}, {Num: 6, Den: 8}, {Num: 7, Den: 8}, {Num: 12, Den: 16}, {Num: 255, Den: 128}, {Num: 9, Den: 32}, {Num: 11, Den: 64}} {
+	meters := []timing.Frac{{Num: 1, Den: 1}, {Num: 2, Den: 2}, {Num: 3, Den: 4}, {Num: 4, Den: 4}, {Num: 5, Den: 4}, {Num: 6, Den: 8}, {Num: 7, Den: 8}, {Num: 12, Den: 16}, {Num: 255, Den: 128}, {Num: 9, Den: 32}, {Num: 11, Den: 64},
+		{Num: 16, Den: 16}, {Num: 128, Den: 1}, {Num: 127, Den: 2}, {Num: 255, Den: 1}, {Num: 256, Den: 4}, {Num: 257, Den: 4}, {Num: 300, Den: 4}, {Num: 65536, Den: 4}, {Num: 4, Den: 3}, {Num: 5, Den: 6}, {Num: 4, Den: 12}, {Num: 4, Den: 255}, {Num: 4, Den: 256}, {Num: 4, Den: 512}, {Num: 4, Den: 65536}, {Num: 1 << 32, Den: 4}, {Num: 4, Den: 1 << 32}}
+	for _, mt := range meters {
 		mt := mt
 		addSweep(func(in *refplay.Inst) { in.Meter = &mt })
+	}
+	// the same values as --bpm / --meter flags (one flag, plain three-instance document)
+	for _, b := range bpms {
+		c := playCase{Path: "cli", Cfg: writeCfg{Flags: refplay.Flags{BPM: up(b)}}}
+		for i := 0; i < 3; i++ {
+			c.Insts = append(c.Insts, c07Inst(i, i == 1, [7]bool{}))
+		}
+		sweeps = append(sweeps, c)
+	}
+	for _, mt := range meters {
+		mt := mt
+		c := playCase{Path: "cli", Cfg: writeCfg{Flags: refplay.Flags{Meter: &mt}}}
+		for i := 0; i < 3; i++ {
+			c.Insts = append(c.Insts, c07Inst(i, i == 1, [7]bool{}))
+		}
+		sweeps = append(sweeps, c)
 	}
 	for _, k := range theory.SupportedKeyNames {
 		k := k
@@ -395,7 +453,8 @@ func runC07(e *Env) {
 		d := d
 		addSweep(func(in *refplay.Inst) { in.Vel = &d })
 	}
-	texts := []string{"I", "é", "♯𝄪", "a: b", "#x", " lead", "x\ty", strings.Repeat("long text ", 30)}
+	texts := []string{"I", "é", "♯𝄪", "a: b", "#x", " lead", "x\ty", strings.Repeat("long text ", 30), "e\u0301", "trail ", "'q'", "\"d\"",
+		strings.Repeat("a", 127), strings.Repeat("b", 128), strings.Repeat("c", 16383), strings.Repeat("d", 16384), strings.Repeat("é", 8192) + "x"}
 	for _, t := range texts {
 		for _, mk := range []string{"txt", "lic", "mrk"} {
 			t, mk := t, mk
@@ -407,13 +466,13 @@ func runC07(e *Env) {
 		c07Eval(e, m, &c, true)
 		e.R.Trace(1)
 		e.R.NonTrivial("sweep" + fmt.Sprint(i))
-		if true {
+		if c.Path == "lib" {
 			cc := c
 			cc.Path = "cli"
 			c07Eval(e, m, &cc, true)
 		}
 	})
-	e.R.AddPart(ev.Part{Name: "value-sweeps", Enumerated: "bpm {4,7,60,100,101,119,300,999,6e7}, 11 meters, 28 keys, 6 dynamics, 8 texts x {txt,lic,mrk}; each at instance 0 and at instance 2 after a rest", Executions: int64(len(sweeps)), Exhaustive: true})
+	e.R.AddPart(ev.Part{Name: "value-sweeps", Enumerated: fmt.Sprintf("%d bpm values (1..5, byte/16/24/32/63/64-bit boundaries, 6e7 and 1.2e8 +-1) and %d meters (incl. numerators 256, 257, 300, 65536, 2^32 and denominators 3, 6, 12, 255, 256, 512, 65536, 2^32), 28 keys, 6 dynamics, 17 texts (incl. 127/128/16383/16384/16385 bytes: the length is a variable-length quantity) x {txt,lic,mrk}; each at instance 0 and at instance 2 after a rest, in-process and through the binary, the bpm and meter values also as --bpm/--meter; a value no MIDI file can state (tempo outside 1..2^24-1 us, numerator > 255, denominator not a power of two <= 128) must be refused", len(bpms), len(meters)), Executions: int64(len(sweeps)), Exhaustive: true})
 
 	// (3) flags x documents through the real binary
 	var fcases []playCase
@@ -491,6 +550,7 @@ func runC07(e *Env) {
 	e.R.AddPart(ev.Part{Name: "flags-x-documents", Enumerated: fmt.Sprintf("16 subsets of {--bpm,--meter,--key,--velocity} x 256 documents (each of the 4 settings present/absent on instance 0 and on instance 1): in-process all 4096, real binary every %d-th; plus 15 non-empty flag subsets x 4 documents whose first instance is a rest (real binary, all)", step), Executions: int64(len(fcases)), Exhaustive: true})
 
 	c07YAMLFeatures(e)
+	runLong(e, 16, func(c *playCase) { c07Eval(e, m, c, true) })
 	c07ArgsGraph(e)
 	var ks []string
 	for k := range m.Vel {
